@@ -299,6 +299,14 @@ def p_type(ex, path, o):
 
 @prim("sorted")
 def p_sorted(ex, path, x):
+    from .engine import SymSet
+    if isinstance(x, SymSet):
+        n = ex.new_int("nb_distinct")
+        path.add(n >= 0)
+        f = UF(f"distinct_sorted!{next(ex.fresh)}", IntSort(), IntSort())
+        t = T((Axis("distinct", n),), lambda k, f=f: f(toI(k)), kind="int", prov="fresh")
+        t.distinct_of = x
+        return t
     if isinstance(x, (set, list, tuple)) and all(isinstance(v, (int, float, str)) for v in x):
         return sorted(x)
     raise Unsupported("sorted of symbolic values")
